@@ -149,7 +149,20 @@ def check_gr_arm(run, pkg, name, dtype, ctype):
         hi = hist_info(v[1])
         info[col] = hi
         # bins / range
-        tr = S.Translator(lambda t: sLmin if t == LMIN else (sdel if t == ("sym", "rdelta") else None), True)
+        def _lm(t, col=col):
+            if t == LMIN:
+                return sLmin
+            if t == ("sym", "rdelta"):
+                return sdel
+            kind, why = cell_scalar_kind(t, SNAP)
+            if kind == "Lmin":
+                return sLmin
+            if kind == "Lmin?":
+                run.ob("R-ALG", fq, f"{name}:{col}:cell-Lmin", False, "L_min in the bin count is the smallest box length of the frame's cell, for orthogonal and triclinic cells",
+                       show(t)[:90], witness=why, loc=fi.loc(), sound=True)
+                return sLmin
+            return None
+        tr = S.Translator(_lm, True)
         try:
             gb = tr.tr(hi["bins"]) if hi["bins"] is not None else None
             okb = S.decide_equal(gb, S.PyInt(sLmin / (2 * sdel)))[0] if gb is not None else None
@@ -198,6 +211,13 @@ def check_gr_arm(run, pkg, name, dtype, ctype):
                  ("call", "PyMatterSim.utils.funcs.nidealfac", (D_,), ()): sF}
         if t in table:
             return table[t]
+        kind, why = cell_scalar_kind(t, SNAP)
+        if kind in ("V", "Lmin"):
+            return sV if kind == "V" else sLmin
+        if kind in ("V?", "Lmin?"):
+            run.ob("R-ALG", fq, f"{name}:cell-{kind[:-1]}", False, "the cell volume / smallest box length entering the normalisation is that of the frame's cell for orthogonal and triclinic cells",
+                   show(t)[:90], witness=why, loc=fi.loc(), sound=True)
+            return sV if kind == "V?" else sLmin
         if name == "bool" and t == ("call", ".sum", (cond_now,), ()):
             return sNsel
         if t[0] == "sub" and t[1] == df and is_const(t[2]):
@@ -538,7 +558,20 @@ def check_sq(run, pkg):
             rounding = [n_ for n_ in _ast.walk(fi.node) if (isinstance(n_, _ast.Attribute) and "round" in n_.attr) or (isinstance(n_, _ast.Name) and "round" in n_.id)]
             if not okround and okave and not rounding:
                 okra = False       # nothing in the routine rounds: the table is grouped by its raw float |q| column
+            wit_av = "equal |q| with float noise are not merged"
+            if okra is None:
+                # the grouping key: a label that does not involve the box lengths at all (e.g. the integer |n|^2) merges wave
+                # vectors of different wavenumber |2 pi n / L| whenever the box edges differ
+                gb = [x for x in walk(ave) if x[0] == "call" and x[1] == ".groupby" and len(x[2]) >= 2]
+                if len(gb) == 1:
+                    keyt = gb[0][2][1]
+                    uses_q = any(x in (C("q"),) for x in walk(keyt)) or any(x[0] == "attr" and x[2] in ("boxlength", "hmatrix") for x in walk(keyt))
+                    from_n = any(x == ("sym", "qvector") for x in walk(keyt))
+                    if from_n and not uses_q:
+                        okra = False
+                        wit_av = (f"the per-|q| average groups rows by {show(keyt)[:70]}, which does not depend on the box: in a 9 x 11 x 14 box the vectors n = (1,0,0), (0,1,0), (0,0,1) have "
+                                  f"three different |q| = 2 pi / L_k but share one label and are averaged into one row")
             run.ob("R-ORDER", fq, f"{kind}:average", okra, "values are rounded, then averaged over equal |q| of the rounded table; (table, average) returned",
-                   show(ave)[:90], witness=None if okround and okave else "equal |q| with float noise are not merged", loc=fi.loc(), sound=True)
+                   show(ave)[:90], witness=None if okround and okave else wit_av, loc=fi.loc(), sound=True)
         else:
             run.ob("R-ORDER", fq, f"{kind}:average", None, "(table, average) returned", show(ret)[:80], loc=fi.loc())
